@@ -1,6 +1,11 @@
 from algo_prop import make
 ALGOS = ['DOO', 'SOO', 'SequOOL', 'StoSOO', 'StroquOOL', 'POO', 'GPO', 'PCT', 'VPCT']
-budget, explore, search, replay = make("C07", ALGOS, quick_per_algo=12, thorough_per_algo=100, salt=700)
+# StoSOO with depth caps the tree actually reaches and small evaluation caps (directed, on every run; consecutive cases
+# differ in n, k and delta)
+STO_CAPS = [("StoSOO", {"params": {"n": n_, "h_max": hm_, "k": k_, **({"delta": dl_} if dl_ else {})}, "kind": kd_, "K": 3, "d": 1, "T": t_})
+            for n_, hm_, k_, dl_, kd_, t_ in [(60, 2, 1, None, "binary", 30), (200, 3, 2, 0.1, "binary", 60), (40, 1, 1, None, "kary", 20),
+                                             (120, 4, 3, 0.01, "randBinary", 100), (80, 2, 2, 0.5, "binary", 40)]]
+budget, explore, search, replay = make("C07", ALGOS, quick_per_algo=12, thorough_per_algo=100, salt=700, long_runs=STO_CAPS)
 LEAN_EXTRA = ["PyXABProofs.Lemmas.OT_Bridge", "PyXABProofs.Generated.OrderTieC07", "PyXABProofs.Props.C07sweep", "PyXABProofs.Props.C07seq", "PyXABProofs.Props.C09", "PyXABProofs.Props.C10", "PyXABProofs.Props.StroquOOL"]
 RULE = ("the documented pull/receive loop on the real classes: algorithm x partition class (K 2..5) x dimension 1..3 x box shape x "
         "parameters from the documented ranges x ten reward modes (dyadic noise, all-negative, zero, constant, few-valued ties, "
